@@ -12,53 +12,84 @@ func init() {
 
 // ruleLineCalcAdd: the line table records prefix+i for every '\n' byte of the chunk.
 func ruleLineCalcAdd(c *Ctx, r *Report, rule string) {
-	r.rule(rule, 1, "lineCalc.add ranges over the chunk and appends prefix+i exactly for the bytes equal to '\\n' (i is a byte index), nothing else")
+	r.rule(rule, 1, "lineCalc.add visits every byte position of the chunk (range or index loop) and appends prefix+i exactly for the positions holding '\\n' (i is a byte index), nothing else")
 	_, fd := c.find("lineCalc.add")
 	if fd == nil {
 		r.bad(rule, "lineCalc.add", "function not found", "")
 		return
 	}
 	r.fn("lineCalc.add")
-	var rs *ast.RangeStmt
+	chunk, prefix := c.paramObj(fd, 0), c.paramObj(fd, 1)
+	var fl *filterLoop
 	other := 0
 	for _, s := range fd.Body.List {
 		switch s := s.(type) {
-		case *ast.RangeStmt:
-			rs = s
+		case *ast.RangeStmt, *ast.ForStmt:
+			if l := c.asFilterLoop(s, func(x ast.Expr) bool { return c.isObj(x, chunk) }); l != nil && fl == nil {
+				fl = l
+			} else {
+				other++
+			}
 		case *ast.ExprStmt, *ast.DeferStmt:
 			// lock / unlock
 		default:
 			other++
 		}
 	}
-	ok := rs != nil && other == 0 && c.isObj(rs.X, c.paramObj(fd, 0)) && rs.Key != nil && rs.Value != nil && len(rs.Body.List) == 1
+	ok := fl != nil && other == 0
+	why := "expected one loop over the chunk (and the lock)"
 	if ok {
-		iobj, vobj := c.objOf(rs.Key.(*ast.Ident)), c.objOf(rs.Value.(*ast.Ident))
-		ifs, isIf := rs.Body.List[0].(*ast.IfStmt)
-		ok = isIf && ifs.Else == nil && len(ifs.Body.List) == 1
+		// one append to lfs in the loop, of prefix + position, under exactly the condition element == '\n'
+		var app *ast.AssignStmt
+		n := 0
+		ast.Inspect(fl.Body, func(x ast.Node) bool {
+			switch x := x.(type) {
+			case *ast.AssignStmt:
+				n++
+				app = x
+			case *ast.BranchStmt:
+				if x.Tok != token.CONTINUE {
+					ok = false
+					why = "the loop can be left early"
+				}
+			case *ast.ReturnStmt, *ast.ForStmt, *ast.RangeStmt, *ast.IncDecStmt:
+				ok = false
+				why = "unexpected statement in the loop"
+			}
+			return true
+		})
+		if n != 1 || app == nil || len(app.Lhs) != 1 || c.fieldPath(app.Lhs[0]) != "<lineCalc>.lfs" {
+			ok = false
+			why = "the loop must contain exactly one statement lfs = append(lfs, prefix+i)"
+		}
 		if ok {
-			be, isB := stripParens(ifs.Cond).(*ast.BinaryExpr)
-			ok = isB && be.Op == token.EQL && c.isObj(be.X, vobj)
+			call, isC := app.Rhs[0].(*ast.CallExpr)
+			ok = isC && c.calleeName(call) == "append" && len(call.Args) == 2 && c.fieldPath(call.Args[0]) == "<lineCalc>.lfs"
 			if ok {
-				k, isC := c.intConst(be.Y)
-				ok = isC && k == '\n'
+				sum, isS := stripParens(call.Args[1]).(*ast.BinaryExpr)
+				ok = isS && sum.Op == token.ADD &&
+					((c.isObj(sum.X, prefix) && fl.IdxIs(sum.Y)) || (c.isObj(sum.Y, prefix) && fl.IdxIs(sum.X)))
+			}
+			if !ok {
+				why = "what is appended must be prefix + the byte position of the element"
 			}
 		}
 		if ok {
-			as, isA := ifs.Body.List[0].(*ast.AssignStmt)
-			ok = isA && len(as.Lhs) == 1 && c.fieldPath(as.Lhs[0]) == "<lineCalc>.lfs"
-			if ok {
-				call, isC := as.Rhs[0].(*ast.CallExpr)
-				ok = isC && c.calleeName(call) == "append" && len(call.Args) == 2 && c.fieldPath(call.Args[0]) == "<lineCalc>.lfs"
-				if ok {
-					sum, isS := stripParens(call.Args[1]).(*ast.BinaryExpr)
-					ok = isS && sum.Op == token.ADD &&
-						((c.isObj(sum.X, c.paramObj(fd, 1)) && c.isObj(sum.Y, iobj)) || (c.isObj(sum.Y, c.paramObj(fd, 1)) && c.isObj(sum.X, iobj)))
+			facts := splitFacts(c.factsAt(fl.Body, app))
+			good := 0
+			for _, f := range facts {
+				b, isB := c.boundOf(condAtom{E: stripParens(f.Cond), Pos: f.Pos, Init: f.Init})
+				if isB && b.Lo != nil && b.Hi != nil && *b.Lo == '\n' && *b.Hi == '\n' && fl.ElemIs(b.X) {
+					good++
 				}
+			}
+			if good < 1 || good != len(facts) {
+				ok = false
+				why = "the append must happen under exactly the condition element == '\\n'"
 			}
 		}
 	}
-	r.check(ok, rule, "lineCalc.add", "for i, c := range s { if c == '\\n' { lfs = append(lfs, prefix+i) } }", "lineCalc.add must append prefix+i for exactly the '\\n' bytes of the chunk", c.pos(fd.Pos()))
+	r.check(ok, rule, "lineCalc.add", "for i, c := range s { if c == '\\n' { lfs = append(lfs, prefix+i) } } (or the index-loop form)", "lineCalc.add must append prefix+i for exactly the '\\n' bytes of the chunk: "+why, c.pos(fd.Pos()))
 }
 
 func checkC07(c *Ctx, r *Report) {
